@@ -278,6 +278,41 @@ Theorem typed_array_ops_are_the_generic_index_ops : forall d iw v,
    op_store WVec (HVec d) iw v = op_store WAny (HVec d) iw v).
 Proof. intros d iw v. exact (conj (typed_load_is_generic_load d iw) (typed_store_is_generic_store d iw v)). Qed.
 
+(* ---- array / vec literals and for-each (after the round-4 repairs) *)
+(* a literal that is built holds exactly its elements, all of the kind of the first one ... *)
+Theorem literal_holds_its_elements : forall w r d,
+  op_lit (w :: r) = Some d ->
+  kind_of_data d = first_kind w /\
+  Forall (fun x => word_fits (first_kind w) x = true) (w :: r) /\
+  contents d = map (canon (first_kind w)) (w :: r).
+Proof. exact lit_spec. Qed.
+
+(* ... and an element of another kind makes it a type error (never a 0 in its place) *)
+Theorem literal_mismatch_is_type_error : forall w r,
+  Exists (fun x => word_fits (first_kind w) x = false) r -> op_lit (w :: r) = None.
+Proof. exact lit_mismatch_is_type_error. Qed.
+
+(* for-each (StringForLoop, VecForLoop, ArrayForLoop are one step function): a value that is not
+   a collection is the type error; a produced element is the element at the index *)
+Theorem foreach_non_collection_is_type_error : forall iw,
+  op_each HOther iw = EErr /\ op_each HNone iw = EErr.
+Proof. exact each_non_collection. Qed.
+
+Theorem foreach_element_spec : forall o iw w,
+  op_each o iw = EElem w ->
+  exists d z, (o = HArray d \/ o = HVec d) /\ (0 <= z < Z.of_nat (alen d))%Z /\ aget d (Z.to_nat z) = Some w /\
+              z = match as_int iw with Some z => z | None => 0%Z end.
+Proof. exact each_elem_spec. Qed.
+
+Example C06_literal_foreach_nonvacuous :
+  op_lit [v_int 1; 0x4004000000000000; v_int 3] = None /\
+  op_lit [v_int 1; v_int 2] = Some (DInts [1%Z; 2%Z]) /\
+  op_lit [v_null; v_int 2] = Some (DObjects [v_null; v_int 2]) /\
+  op_each HOther (v_int 0) = EErr /\
+  op_each (HArray (DInts [5%Z])) (v_int 0) = EElem (v_int 5) /\
+  op_each (HString 2) (v_int 1) = EChar 1 /\ op_each (HVec (DInts [])) (v_int 0) = EEnd.
+Proof. exact lit_each_nonvacuous. Qed.
+
 Example C06_array_opcode_nonvacuous :
   op_load WArray (HArray (DFloats [0x4025000000000000; 0x4034800000000000])) 0x3FF0000000000000 = AErr AEIndex /\
   op_load WAny (HVec (DObjects [5; 6])) 0x3FF0000000000000 = AErr AEIndex /\
